@@ -35,7 +35,7 @@ const (
 type rtTask struct {
 	orig      int64 // original task id (symbolic)
 	obj       *replicationv1.ReplicationTask
-	source    int // source shard index
+	source    int       // source shard index
 	sentOn    *rtTarget // target stream incarnation the task was sent on (nil: not yet)
 	seenCount int       // how many times it appeared on any target stream
 	proxyID   int64
@@ -122,18 +122,18 @@ func (c *rtAdminClient) StreamWorkflowReplicationMessages(ctx context.Context, o
 // transcription of Temporal's receiver-side ExecutableTaskTracker.
 type rtTarget struct {
 	grpc.ServerStream
-	env       *rtEnv
-	idx       int
-	inc       int
-	shard     history.ClusterShardID
-	ctx       context.Context
-	cancel    context.CancelFunc
-	fromTgt   chan *adminservice.StreamWorkflowReplicationMessagesRequest
-	broken    chan struct{}
-	msgs      int
-	started   bool
-	stalled   bool          // a slow target: Send blocks until resumed
-	resumeCh  chan struct{}
+	env      *rtEnv
+	idx      int
+	inc      int
+	shard    history.ClusterShardID
+	ctx      context.Context
+	cancel   context.CancelFunc
+	fromTgt  chan *adminservice.StreamWorkflowReplicationMessagesRequest
+	broken   chan struct{}
+	msgs     int
+	started  bool
+	stalled  bool // a slow target: Send blocks until resumed
+	resumeCh chan struct{}
 	// tracker model
 	ids       []int64 // proxy ids of accepted tasks in order
 	tasks     []*rtTask
@@ -199,20 +199,20 @@ func (t *rtTarget) lowWatermark() int64 {
 
 // rtEnv wires real sender/receiver objects to the fakes.
 type rtEnv struct {
-	sm        ShardManager
-	nSrc      int
-	nTgt      int
-	sources   []*rtSource
-	targets   []*rtTarget
-	receivers []*proxyStreamReceiver
-	senders   []*proxyStreamSender
-	srcShut   []channel.ShutdownOnce
-	tgtShut   []channel.ShutdownOnce
-	tasks     []*rtTask
-	byObj     map[*replicationv1.ReplicationTask]*rtTask
-	nextWF    int
-	logger    log.Logger
-	lateFrom  int  // targets with index >= lateFrom are connected by an explicit action
+	sm            ShardManager
+	nSrc          int
+	nTgt          int
+	sources       []*rtSource
+	targets       []*rtTarget
+	receivers     []*proxyStreamReceiver
+	senders       []*proxyStreamSender
+	srcShut       []channel.ShutdownOnce
+	tgtShut       []channel.ShutdownOnce
+	tasks         []*rtTask
+	byObj         map[*replicationv1.ReplicationTask]*rtTask
+	nextWF        int
+	logger        log.Logger
+	lateFrom      int // targets with index >= lateFrom are connected by an explicit action
 	snapshotTasks bool
 	idleAction    bool // the action alphabet includes "everything idles for >1s" (keep-alives fire)
 	stallable     bool // the action alphabet includes stalling / resuming a target's Send
